@@ -33,7 +33,7 @@ IU = 'utils.iter_utils'
 
 
 def run(ctx: Ctx):
-  for r in (r1, r2, r3, r4, r6, r10, r11, r12):
+  for r in (r1, r2, r3, r4, r6, r10, r11, r12, r13):
     ctx.guard(r)
   from mlmverif.props import c04
   from mlmverif.props._queue import model as qmodel
@@ -274,6 +274,39 @@ def r12(ctx: Ctx):
                ' so a failure on the very first element has already run the failure path (with nothing linked yet) —'
                ' the feeder threads are never stopped', node=m.node)
   ctx.floor(rule, 3, n)
+
+
+def r13(ctx: Ctx):
+  rule = 'R-C13-13'
+  ctx.rule(rule, '"when the stream is exhausted ... all helper threads finish and the pool is shut down": a pool the parallel'
+           ' helpers create themselves belongs to ONE stream — the functions of iter_utils that construct a'
+           ' ThreadPoolExecutor are not memoised (functools.cache / lru_cache) and store it in no module-level name. A'
+           ' shared default pool is never shut down (its threads outlive every stream) and is sized for one stream: a'
+           ' second live stream of the same shape finds every thread taken by the first one\'s blocked feeders')
+  mi = ctx.repo.module(IU)
+  n = 0
+  fns = list(mi.functions.values()) + [m_ for c in mi.classes.values() for m_ in c.methods.values()]
+  for fi in fns:
+    makes = [c for c in walk_no_nested(fi.node) if isinstance(c, ast.Call) and unparse(c.func).split('.')[-1] == 'ThreadPoolExecutor']
+    if not makes:
+      continue
+    n += 1
+    cached = [d for d in fi.decorators if 'cache' in d]
+    glob = [x for x in walk_no_nested(fi.node) if isinstance(x, ast.Global)]
+    what = f'{fi.qualname}: the pool it creates is a fresh one per call'
+    if cached or glob:
+      ctx.fail(rule, fi, what,
+               f'{fi.qualname} constructs a ThreadPoolExecutor and is {"memoised (@" + cached[0] + ")" if cached else "storing it in a global"}:'
+               ' every stream that asks for a default pool gets the SAME executor — it is never shut down when a stream ends,'
+               ' and two live streams share threads sized for one', node=makes[0])
+    else:
+      ctx.ok(rule, fi, what, makes[0])
+  for name, v in mi.assigns.items():
+    if isinstance(v, ast.Call) and unparse(v.func).split('.')[-1] == 'ThreadPoolExecutor':
+      n += 1
+      ctx.fail(rule, fns[0], 'iter_utils keeps no module-level executor',
+               f'module-level `{name} = {unparse(v)[:50]}`: a pool shared by all streams is never shut down', node=v)
+  ctx.floor(rule, 2, n)
 
 
 def r11(ctx: Ctx):
@@ -645,6 +678,8 @@ from mlmverif.selfcheck import B, OK  # noqa: E402
 
 _F = 'utils/iter_utils.py'
 VARIANTS = [
+    B('default-pool-memoised', 'utils/iter_utils.py',
+      'def _get_thread_pool(\n', '@functools.cache\ndef _get_thread_pool(\n', 'R-C13-13'),
     B('revert-failure-stops-linked', 'utils/iter_utils.py',
       "    if self.exception is not None:\n      # A failed stream is over: what feeds its enqueuers is stopped as well,\n      # its threads are otherwise blocked on their full queue for good.\n      for other in self._stopped_with:\n        other.maybe_stop()\n",
       '', 'R-C13-12'),
